@@ -57,7 +57,7 @@ func vfC17RecRunLane(lane vfC17RecLane, portSeed int, stop *int32) (res vfC17Rec
 	var blocker net.Listener
 	port := 0
 	for attempt := 0; attempt < 40 && blocker == nil; attempt++ {
-		p := 10000 + (portSeed+attempt*7919)%22000
+		p := 10000 + (portSeed+os.Getpid()*131+attempt*7919)%22000 // the pid keeps parallel check runs apart
 		if l, err := net.Listen("tcp", fmt.Sprintf(":%d", p)); err == nil {
 			blocker, port = l, p
 		}
